@@ -1087,6 +1087,8 @@ func c19Run(c c19Case, root string, r *c19Result) {
 			setupOnce = sync.Once{}
 			atomic.StoreUint32(&logLevel, 0)
 			atomic.StoreUint32(&disableLog, 0)
+			// the state of a fresh process: Setup itself has to select the encoding of the Config
+			atomic.StoreUint32(&encoding, jsonEncodingType)
 			writer.Store(nil)
 			defer func() {
 				Disable()
